@@ -30,7 +30,7 @@ SPEC = {
     "assumptions": COMMON_ASSUME + [
         "golang.org/x/crypto/sha3 (SHA3-256/512, SHAKE128/256) and crypto/aes (KAT DRBG of the self-test) are correct",
         "the reference ref/mlkem is correct where it is pinned: 78 ACVP FIPS 203 vectors (keyGen, encapsulation, decapsulation incl. rejection) and the three published round-3 PQCkemKAT digests; its direct O(n^2) NTT is cross-checked with schoolbook multiplication",
-        "round-3 Kyber is taken to decode 12-bit key coefficients as integers that are then used modulo q (Decode_12 followed by arithmetic in R_q); FIPS 203 ByteDecode_12 reduces modulo q",
+        "round-3 Kyber is taken to decode 12-bit key coefficients as integers that are then used modulo q (Decode_12 followed by arithmetic in R_q) and to hash the public key bytes as received (H(pk)); FIPS 203 ByteDecode_12 reduces modulo q",
     ],
     "budget": {"quick": 900, "thorough": 3600},
 }
